@@ -52,6 +52,10 @@ def cases(tier, seed):
     for t in range(4):
         for shape in ('one', 'two-namespaces', 'default-and-named', 'labels', 'no-help-unit'):
             out.append({'k': 'prometheus', 't': t, 'shape': shape})
+    # the OpenTelemetry processor shipped with the agent: every report must be taken by the OpenTelemetry API (no error of the processor)
+    for t in range(4):
+        for shape in ('one', 'no-help-unit', 'labels'):
+            out.append({'k': 'otel', 't': t, 'shape': shape})
     return out
 
 
@@ -199,7 +203,70 @@ def prometheus(ctx, desc):
             pass
 
 
+_OTEL = {}
+
+
+def otel_sdk():
+    """An application that uses the processor has an OpenTelemetry SDK meter provider installed (once per process)."""
+    if not _OTEL:
+        from opentelemetry import metrics
+        from opentelemetry.sdk.metrics import MeterProvider
+        from opentelemetry.sdk.metrics.export import InMemoryMetricReader
+        _OTEL['reader'] = InMemoryMetricReader()
+        metrics.set_meter_provider(MeterProvider(metric_readers=[_OTEL['reader']]))
+    return _OTEL['reader']
+
+
+def otel(ctx, desc):
+    from deep.api.plugin.metric.otel_metrics import OTelMetrics
+    reader = otel_sdk()
+    from deep.api.tracepoint.tracepoint_config import MetricDefinition, LabelExpression
+    from deep.api.tracepoint.trigger import build_trigger
+    ns, path = prog()
+    t = TYPES[desc['t']]
+    tag = 'c17o%d%s' % (desc['t'], desc['shape'].replace('-', ''))
+    if desc['shape'] == 'one':
+        defs = [MetricDefinition(tag, t, [], 'n', 'shop', 'h', 'items')]
+    elif desc['shape'] == 'labels':
+        defs = [MetricDefinition(tag, t, [LabelExpression('ls', 'sv', None), LabelExpression('lx', None, 'n + 1')], 'n', 'shop', 'h', 'items')]
+    else:
+        defs = [MetricDefinition(tag, t, [], 'n')]
+    agent = rig.Agent(plugins=[OTelMetrics(None)], journal=rig.Journal())
+    agent.install([build_trigger('tp-m', 'c17prog.py', LINE, {'fire_count': '2', 'fire_period': '0', 'snapshot': 'no_collect'}, [], defs)])
+    ctx.case()
+    ctx.nt(('otel', t, desc['shape']))
+    before = len(rig.SINK.records)
+    with rig.VirtualClock():
+        run = Forwarder({path}, agent.handler).call(ns['target'], 5, ns['Thing'](), 2)
+    errs = [r[2] for r in rig.SINK.records[before:] if r[1] in ('ERROR', 'CRITICAL')]
+    ctx.outcome(('otel', t, desc['shape'], len(errs)))
+    if run.escaped or run.exc is not None:
+        ctx.violation('C17/otel/handler-raised', f'{desc}: {run.escaped[:1] or run.exc!r}', desc)
+    names = set()
+    try:
+        data = reader.get_metrics_data()
+        for rm in (data.resource_metrics if data else []):
+            for sm in rm.scope_metrics:
+                for m in sm.metrics:
+                    names.add(m.name)
+    except BaseException:
+        pass
+    want = '%s_%s' % (defs[0].namespace or 'deep', defs[0].name)
+    if run.escaped or run.exc is not None:
+        pass
+    elif not errs and want not in names:
+        ctx.violation(f'C17/otel/{desc["shape"]}/{t}/not-recorded', f'metric {want} is not among the metrics the OpenTelemetry SDK collected ({sorted(names)[:5]})', desc)
+        return
+    if run.escaped or run.exc is not None:
+        ctx.violation('C17/otel/handler-raised', f'{desc}: {run.escaped[:1] or run.exc!r}', desc)
+    elif errs:
+        ctx.violation(f'C17/otel/{desc["shape"]}/{t}', f'definition {[(d.namespace, d.name, d.help, d.unit) for d in defs]} through the shipped OpenTelemetry processor: '
+                      f'the report was refused - {errs[:1]}', desc)
+
+
 def run_case(ctx, desc):
+    if desc.get('k') == 'otel':
+        return otel(ctx, desc)
     if desc.get('k') == 'prometheus':
         return prometheus(ctx, desc)
     if desc.get('k') == 'chunk':
